@@ -11,7 +11,7 @@ import (
 	"time"
 
 	"symgo/interp"
-	"symgo/load"
+	"symgo/smt"
 )
 
 const (
@@ -69,38 +69,49 @@ func cmdRun(args []string) {
 	maxPaths := fs.Int("maxpaths", 100000, "max paths per job")
 	verbose := fs.Bool("v", false, "verbose")
 	solver := fs.String("solver", "z3", "z3|z3-new|cvc5")
+	tier := fs.String("tier", "quick", "quick|thorough")
+	gen := fs.Bool("gen", false, "generate Numscript shapes (and build the compiler helper)")
+	needHelper := fs.Bool("helper", false, "build the compiler helper")
+	quiet := fs.Bool("q", false, "only print jobs with findings")
+	tmo := fs.Int("timeout", 10000, "solver timeout per query, ms")
+	fallbacks := fs.String("fallbacks", "z3-new cvc5", "fallback solvers for unknown answers")
 	fs.Parse(args)
 
 	t0 := time.Now()
-	ov, err := load.OverlayFromDir(harnessDir, repoDir, nil)
-	if err != nil {
-		panic(err)
-	}
-	p, err := load.Load(repoDir, ov, []string{*pkg, libsMod + "/verifhook"})
+	sess, err := NewSession(SessionOpts{Tier: *tier, Patterns: []string{*pkg}, NeedShapes: *gen, NeedHelper: *gen || *needHelper, OutName: "run"})
 	if err != nil {
 		fmt.Fprintln(os.Stderr, err)
 		os.Exit(2)
 	}
-	fmt.Printf("loaded in %.1fs\n", p.LoadS)
-	in := interp.New(p.Prog)
-	in.InitPkgPrefixes = []string{ledgerMod, libsMod}
-	if err := in.RunInit(p.SSAPkgs); err != nil {
-		fmt.Println("init:", err)
-	}
+	defer sess.Close()
+	p, in := sess.P, sess.In
+	fmt.Printf("setup in %.1fs (load %.1fs), %d shapes\n", sess.SetupS, p.LoadS, len(sess.Shapes))
 	f := p.Func(*pkg, *fn)
 	if f == nil {
 		fmt.Fprintln(os.Stderr, "no such function")
 		os.Exit(2)
+	}
+	if *shapes == "all" {
+		*shapes = fmt.Sprintf("0..%d", len(sess.Shapes)-1)
 	}
 	var jobs []*interp.Job
 	for _, s := range parseShapes(*shapes) {
 		jobs = append(jobs, &interp.Job{Harness: *fn, Fn: f, Args: []interp.Value{int64(s)}, Shape: s,
 			Cfg: interp.Config{Preemptions: *preempt, SchedDecide: *sched, SelectDecide: *sched, PanicIsViolation: true}})
 	}
-	ex := &interp.Explorer{In: in, Workers: *workers, SolverKind: *solver, TimeoutMs: 10000, MaxPaths: *maxPaths}
+	if d := os.Getenv("SYMGO_DUMP"); d != "" {
+		smt.DumpDir = d
+	}
+	ex := &interp.Explorer{In: in, Workers: *workers, SolverKind: *solver, TimeoutMs: *tmo, MaxPaths: *maxPaths, Fallbacks: strings.Fields(*fallbacks)}
 	res := ex.Run(jobs)
 	for _, r := range res {
+		if *quiet && len(r.Violations) == 0 && len(r.Unsupported) == 0 && len(r.Msgs) == 0 && len(r.Inconcl) == 0 {
+			continue
+		}
 		fmt.Println(r.Summary())
+		if *gen && r.Job.Shape < len(sess.Shapes) {
+			fmt.Println("   script:", strings.ReplaceAll(sess.Shapes[r.Job.Shape].Script, "\n", " | "), "valid:", sess.Shapes[r.Job.Shape].Valid)
+		}
 		if *verbose || len(r.Unsupported) > 0 || len(r.Msgs) > 0 {
 			for k, n := range r.Unsupported {
 				fmt.Printf("   unsupported x%d: %s\n", n, k)
@@ -132,5 +143,5 @@ func cmdRun(args []string) {
 			fmt.Println("   inconclusive:", s)
 		}
 	}
-	fmt.Printf("solver: %+v  wall %.1fs\n", ex.Stats, time.Since(t0).Seconds())
+	fmt.Printf("solver: %+v fallbacks %v wall %.1fs\n", ex.Stats, ex.FallbackStats, time.Since(t0).Seconds())
 }
